@@ -255,7 +255,7 @@ Definition sdpa_via_mha_check (key_bhsd : bool) (q k v : option (list Z)) : opti
 
 (* ---- sdpa.py SDPA.check, the shape part (the scale part is Sdpa.v).  names: B=0 H=1 S=2 Dh=3 Skv=4 Dv=5.
    mask: None = the match has no mask; Some None = mask of unknown shape; Some (Some ms).
-   [repaired] = false: as read at bbeff32 (shapes bound, nothing else); true: fix (ready/C19_04) -- a mask of rank > 4 or with a
+   [repaired] = false: as read at bbeff32 (shapes bound, nothing else); true: fix (fix 9ed3615) -- a mask of rank > 4 or with a
    static dim that is neither 1 nor the (static) score dim it is aligned with is refused, and H must be static. *)
 Fixpoint mask_into_score_rev (mask_rev score_rev : list Z) : bool :=
   match mask_rev, score_rev with
